@@ -861,7 +861,13 @@ func (l *commitLog) Clean() error {
 // rebaseSegments adds the segments in from to the end of the slice of segments
 // in to and adds any leader epoch offsets to the given leaderEpochCache.
 func (l *commitLog) rebaseSegments(from, to []*segment, epochCache *leaderEpochCache) []*segment {
-	to = append(to, from...)
+	// Build a new slice rather than appending in place: to can be a suffix of
+	// the segment slice readers obtained from Segments() and index without
+	// holding the log mutex, and appending to it would write into the backing
+	// array they share.
+	rebased := make([]*segment, 0, len(to)+len(from))
+	rebased = append(rebased, to...)
+	to = append(rebased, from...)
 	// Rebase any leader epoch offsets also. We don't check the error returned
 	// here because Rebase can't return an error since epochCache is not
 	// file-backed. The epoch cache is nil if compaction didn't run, in which
